@@ -435,6 +435,57 @@ fn cmd_session(budget: u64, lines: &[String]) -> String {
     )
 }
 
+/// evaluate the batch concurrently: `n` threads, each repeatedly takes the next program of its own
+/// seeded order; every program is evaluated by several threads and all answers for one program
+/// must be identical (returned once; `DIVERGED` otherwise)
+fn cmd_threads(n: usize, seed: u64, budget: u64, progs: Vec<String>) -> String {
+    use std::sync::{Arc, Mutex};
+    let progs = Arc::new(progs);
+    let results: Arc<Mutex<Vec<Vec<String>>>> = Arc::new(Mutex::new(vec![Vec::new(); progs.len()]));
+    let mut handles = Vec::new();
+    for t in 0..n {
+        let progs = Arc::clone(&progs);
+        let results = Arc::clone(&results);
+        handles.push(
+            std::thread::Builder::new()
+                .stack_size(64 << 20)
+                .spawn(move || {
+                    let mut x = seed.wrapping_mul(0x9E3779B97F4A7C15).wrapping_add(t as u64 * 7919 + 1) | 1;
+                    let rounds = progs.len() * 3 / n.max(1) + 1;
+                    for _ in 0..rounds {
+                        x ^= x >> 12;
+                        x ^= x << 25;
+                        x ^= x >> 27;
+                        let k = (x.wrapping_mul(0x2545F4914F6CDD1D) >> 11) as usize % progs.len();
+                        let r = catch_unwind(AssertUnwindSafe(|| run_eval(budget, &progs[k], false)))
+                            .unwrap_or_else(|_| "PANIC".to_string());
+                        results.lock().unwrap()[k].push(r);
+                    }
+                })
+                .unwrap(),
+        );
+    }
+    for h in handles {
+        let _ = h.join();
+    }
+    let results = results.lock().unwrap();
+    let mut out = Vec::new();
+    for (k, rs) in results.iter().enumerate() {
+        if rs.is_empty() {
+            // not drawn by any thread: evaluate here
+            out.push(run_eval(budget, &progs[k], false));
+        } else if rs.iter().all(|r| r == &rs[0]) {
+            out.push(rs[0].clone());
+        } else {
+            let mut d = rs.clone();
+            d.sort();
+            d.dedup();
+            out.push(format!("DIVERGED {}", d.join(" <> ")));
+        }
+    }
+    out.join(" ;; ")
+}
+
 fn handle(line: &str) -> String {
     let parts: Vec<&str> = line.trim().split(' ').collect();
     match parts.as_slice() {
@@ -471,6 +522,20 @@ fn handle(line: &str) -> String {
                 }
             }
             cmd_session(b, &lines)
+        }
+        ["threads", n, seed, b, rest @ ..] => {
+            let (n, seed, b) = match (n.parse::<usize>(), seed.parse::<u64>(), b.parse::<u64>()) {
+                (Ok(n), Ok(s), Ok(b)) => (n, s, b),
+                _ => return "bad-request".into(),
+            };
+            let mut progs = Vec::new();
+            for h in rest.iter() {
+                match unhex(h) {
+                    Some(t) => progs.push(t),
+                    None => return "bad-hex".into(),
+                }
+            }
+            cmd_threads(n, seed, b, progs)
         }
         ["tables"] => verif::tables().replace('\n', " ;; "),
         ["obj", rest @ ..] => objops::handle(rest),
